@@ -60,6 +60,56 @@ Example needs_class_no_dot :
     [[mkVline [mkVrun (b "a") (Some [mkVtag (b "c") [] [b "x"; b "y"]]) 0%Z None] []]].
 Proof. split; vm_compute; reflexivity. Qed.
 
+(* ---- repr_vline: the conditions that keep a written line inside the domain on which the tokenizer model is faithful
+   to golang.org/x/net/html ([vtt_line_simple]).  Outside that domain the round-trip theorems would be statements about
+   the model only; each condition is shown necessary by a line that violates only it and whose written form is outside
+   the domain. ---- *)
+(* tag names are not raw-text elements of the HTML tokenizer (script, style, title, textarea, xmp, iframe, noembed,
+   noframes, noscript, plaintext; compared lower-cased, with the dotted classes: "title.k" is another element).  The
+   audit witness: a run tagged <title> followed by an unstyled run *)
+Definition ln_raw (n : str) : vline := mkVline [mkVrun (b "x") (Some [mkVtag n [] []]) 0%Z None; plain_run (b "y")] [].
+Example needs_no_raw_text_tag :
+  repr_vline (ln_raw (b "title")) = false /\
+  removelast (vline_bytes (ln_raw (b "title"))) = b "<title>x</title>y" /\
+  vtt_line_simple (removelast (vline_bytes (ln_raw (b "title")))) = false.
+Proof. split; [|split]; vm_compute; reflexivity. Qed.
+(* the same for every raw-text element, in either case; an ordinary name, and a raw-text name carrying a class, are accepted *)
+Example needs_no_raw_text_tag_all :
+  forallb (fun n => negb (repr_vline (ln_raw n)) && negb (vtt_line_simple (removelast (vline_bytes (ln_raw n))))) (b "TITLE" :: b "Script" :: raw_text_tags) = true /\
+  repr_vline (ln_raw (b "b")) = true /\
+  repr_vline (mkVline [mkVrun (b "x") (Some [mkVtag (b "title") [] [b "k"]]) 0%Z None; plain_run (b "y")] []) = true.
+Proof. split; [|split]; vm_compute; reflexivity. Qed.
+(* where the model and the library really part (replayed on the library, notes/C02.md): after <plaintext> the real
+   tokenizer reads the rest of the line as one text token -- the library returns ONE run "x</plaintext>y" -- and inside
+   <title> ... </title> it does not see the inner tags -- the library returns the runs "x<b>z</b>" and "y" --; the model
+   reads two resp. three runs *)
+Definition ln_raw_nested : vline :=
+  mkVline [mkVrun (b "x") (Some [mkVtag (b "title") [] []]) 0%Z None;
+           mkVrun (b "z") (Some [mkVtag (b "title") [] []; mkVtag (b "b") [] []]) 0%Z None; plain_run (b "y")] [].
+Example needs_no_raw_text_tag_model_reads :
+  repr_vline (ln_raw (b "plaintext")) = false /\
+  removelast (vline_bytes (ln_raw (b "plaintext"))) = b "<plaintext>x</plaintext>y" /\
+  map vr_text (vl_runs (fst (parse_text_vtt (b "<plaintext>x</plaintext>y") []))) = [b "x"; b "y"] /\
+  repr_vline ln_raw_nested = false /\
+  removelast (vline_bytes ln_raw_nested) = b "<title>x<b>z</b></title>y" /\
+  map vr_text (vl_runs (fst (parse_text_vtt (b "<title>x<b>z</b></title>y") []))) = [b "x"; b "z"; b "y"].
+Proof. repeat split; vm_compute; reflexivity. Qed.
+(* annotations and voice names hold no '&' and no CR (the HTML tokenizer reads an annotation as attributes, and the real
+   one decodes character references and normalises CR inside attribute VALUES, i.e. after an '='; the predicate excludes
+   the two bytes from the whole annotation, which is sufficient); no NUL byte anywhere *)
+Example needs_annot_no_amp :
+  repr_vline (mkVline [plain_run (b "x")] (b "A=B&C")) = false /\
+  vtt_line_simple (removelast (vline_bytes (mkVline [plain_run (b "x")] (b "A=B&C")))) = false /\
+  repr_vline (mkVline [mkVrun (b "x") (Some [mkVtag (b "lang") (b "k=a&b") []]) 0%Z None] []) = false /\
+  vtt_line_simple (removelast (vline_bytes (mkVline [mkVrun (b "x") (Some [mkVtag (b "lang") (b "k=a&b") []]) 0%Z None] []))) = false.
+Proof. repeat split; vm_compute; reflexivity. Qed.
+Example needs_no_nul :
+  repr_vline (mkVline [plain_run [120; 0; 121]] []) = false /\
+  vtt_line_simple (removelast (vline_bytes (mkVline [plain_run [120; 0; 121]] []))) = false /\
+  repr_vline (mkVline [mkVrun (b "x") (Some [mkVtag [99; 0] [] []]) 0%Z None] []) = false /\
+  vtt_line_simple (removelast (vline_bytes (mkVline [mkVrun (b "x") (Some [mkVtag [99; 0] [] []]) 0%Z None] []))) = false.
+Proof. repeat split; vm_compute; reflexivity. Qed.
+
 (* ---- repr_vdoc ---- *)
 Definition items_of (r : res vdoc) : list vitem := match r with Ok d => vd_items d | _ => [] end.
 Definition ln_x : vline := mkVline [plain_run (b "x")] [].
